@@ -593,7 +593,7 @@ struct CaseResult {
 /// Evaluate one (possibly mutated) set: all oracles except isolation.
 fn run_set(set: &MSet, src: u64, dst: u64) -> CaseResult {
     match eval(set, src, dst, true) {
-        Eval::Panic(loc, msg) => CaseResult { violations: vec![(format!("panic@{}", loc.rsplit('/').next().unwrap_or(&loc)), format!("combine panicked at {loc}: {msg}"))], paths: None },
+        Eval::Panic(loc, msg) => CaseResult { violations: vec![(util::panic_class(&loc, &msg), format!("combine panicked at {loc}: {msg}"))], paths: None },
         Eval::OverBudget(s) => CaseResult { violations: vec![("no-return-within-budget".into(), format!("combine took {s:.1} s on {} segments", set.len()))], paths: None },
         Eval::Paths(obs) => {
             let mut v = vec![];
@@ -690,7 +690,8 @@ fn judge(run: &vpc::Run, t: &mut Tally, topo_name: &str, src: u64, dst: u64, bas
     }
     t.out(format!("family:{}", m.family));
     for (class, what) in viol {
-        run.violation(&class, &format!("{topo_name} {}->{} after [{}]: {what}", util::ia_str(src), util::ia_str(dst), m.what), witness(topo_name, src, dst, &m.what, &m.set, &m.touched));
+        let w = if run.is_known(&class) { Value::Null } else { witness(topo_name, src, dst, &m.what, &m.set, &m.touched) };
+        run.violation(&class, &format!("{topo_name} {}->{} after [{}]: {what}", util::ia_str(src), util::ia_str(dst), m.what), w);
     }
     r.paths
 }
@@ -889,7 +890,7 @@ pub fn run(args: &vpc::Args) -> ! {
         }
     });
     let max_n = run.tier.pick(3, 4);
-    let pairs_max_n = run.tier.pick(0, 2);
+    let pairs_max_n = run.tier.pick(0, 3);
     let mut total = Tally::default();
     let mut per = vec![];
     // one task per (topology, ordered pair)
@@ -914,10 +915,16 @@ pub fn run(args: &vpc::Args) -> ! {
     };
     for n in 1..=max_n {
         let topos = reftopo_enum::enumerate(n, 2);
-        let pairs = n <= pairs_max_n;
-        let tn = explore_all(&topos, pairs);
-        per.push(json!({"n": n, "topologies": topos.len(), "base_sets": tn.bases, "mutated_sets": tn.mutants, "pairs_of_mutations": pairs, "combine_calls": tn.calls}));
-        total.merge(tn);
+        // pairs of mutations: n <= 2 both numberings, n = 3 on the sequential numbering
+        let (with_pairs, singles_only): (Vec<Topo>, Vec<Topo>) = topos.into_iter().partition(|t| n <= pairs_max_n && (n <= 2 || t.name.ends_with("-seq")));
+        for (topos, pairs) in [(with_pairs, true), (singles_only, false)] {
+            if topos.is_empty() {
+                continue;
+            }
+            let tn = explore_all(&topos, pairs);
+            per.push(json!({"n": n, "topologies": topos.len(), "base_sets": tn.bases, "mutated_sets": tn.mutants, "pairs_of_mutations": pairs, "combine_calls": tn.calls}));
+            total.merge(tn);
+        }
     }
     let cur = reftopo_enum::curated();
     let tn = explore_all(&cur, false);
@@ -943,7 +950,7 @@ pub fn run(args: &vpc::Args) -> ! {
             "distinct_nontrivial": d.len(),
             "rule": "distinct (topology, pair, mutated segment set) whose returned interface-sequence set differs from the unmutated set's; evaluations = calls of the real combine()",
             "exhaustive": true,
-            "bound": format!("every single structural mutation (catalogue: truncate 0/1, reverse, delete/duplicate/swap entries, repeat an AS, foreign AS, every interface id := 0 / another id of the segment / 65535, both 0, swapped, all ids 0, AS MTU in {{0,1,65535,65536,67036,u32::MAX}}, ingress_mtu/peer_mtu 0/1/65535, ExpTime 0/255, peer entry dropped/duplicated/re-targeted/re-wired/invented, 63/64/100-entry chains, segment in both lists / wrong list / missing, foreign-leaf segments) of every lookup-plan set of every (topology, ordered pair) with n <= {max_n} ASes + {} curated shapes; every ordered PAIR of mutations for n <= {pairs_max_n}; scaling series 5/10/20/40 segments", cur.len()),
+            "bound": format!("every single structural mutation (catalogue: truncate 0/1, reverse, delete/duplicate/swap entries, repeat an AS, foreign AS, every interface id := 0 / another id of the segment / 65535, both 0, swapped, all ids 0, AS MTU in {{0,1,65535,65536,67036,u32::MAX}}, ingress_mtu/peer_mtu 0/1/65535, ExpTime 0/255, peer entry dropped/duplicated/re-targeted/re-wired/invented, 63/64/100-entry chains, segment in both lists / wrong list / missing, foreign-leaf segments) of every lookup-plan set of every (topology, ordered pair) with n <= {max_n} ASes + {} curated shapes; every ordered PAIR of mutations (a second mutation applied to every single mutant) for n <= 2 and, if {pairs_max_n} >= 3, for n = 3 in the sequential numbering; scaling series 5/10/20/40 segments", cur.len()),
             "per_n": per,
             "largest_result_paths": total.max_paths,
             "fixed_budget_s": BUDGET.as_secs(),
